@@ -24,7 +24,11 @@
              'any length - leave the stream readers and the flat reader in the state they were in (xml/json_rejected_restores, '
              'rejected_run_leaves_nothing); release timing is irrelevant',
              'COMPARED ONLY: live heap and goroutine stack memory (retention outside the node tree), positional stream filters (outside the target '
-             'class; checked through the attach/filter/release abstraction)'],
+             'class; checked through the attach/filter/release abstraction)',
+             'node-count runs include FINAL_OUTPUT filters the xpath library cannot evaluate on some records (b > 5 with a blank / non-numeric b; '
+             'HEAD turns that into "no match"), for the plain, child-record and group fixtures of the flat formats; a javascript_with_context run '
+             'over more records than the default LRU capacity (65536) of customfuncs.NodeToJSONCache, sampled only after the cache is full, with the '
+             'entry count read from the exported cache (110000 records quick, 200000 thorough) - both compared only, not in the model'],
  'assumptions': ['no_separator_text (XML): no character data between the records (F7 is the known finding outside this guard)',
                  'the repeated part consists of target records under a fixed set of ancestors; records of non-target declarations and wrappers that '
                  'are not themselves on the target path stay attached by design'],
